@@ -284,7 +284,7 @@ def write_evidence(prop, tier, level, coverage, wall, violations, assumptions):
     # evidence/ describes /repo itself; a run against another tree (VERIF_REPO: a seeded or
     # mutated scratch worktree) or a partial run (VERIF_ONLY) writes under .work instead
     global EVIDENCE
-    if os.path.realpath(REPO) != "/repo" or os.environ.get("VERIF_ONLY"):
+    if os.path.realpath(REPO) != "/repo" or os.environ.get("VERIF_ONLY") or os.environ.get("VERIF_SKIP_MODEL"):
         EVIDENCE = os.path.join(WORK, "evidence-other")
     os.makedirs(EVIDENCE, exist_ok=True)
     ev = {"property_id": prop, "tier": tier, "seed": seed(), "level": level, "coverage": coverage,
